@@ -1,6 +1,13 @@
 use crate::protobuf::errors::{ErrorKind, ProtobufError};
 use crate::protobuf::value::{FieldTypes, LimitReader, ReadValue};
 
+/// Maximum depth of nested embedded messages.
+///
+/// Message decoders are recursive, so a limit is needed to prevent malicious
+/// input from overflowing the stack. Other Protocol Buffers implementations
+/// have a default limit of 100.
+const MAX_NESTING_DEPTH: u32 = 200;
+
 /// Wire-type and associated value of a field.
 ///
 /// See <https://protobuf.dev/programming-guides/encoding/#structure>.
@@ -91,6 +98,9 @@ pub struct Field<'r, R: ReadValue> {
     /// Debug name of the message type this field belongs to.
     context: Option<&'static str>,
 
+    /// Nesting depth of the message this field belongs to.
+    depth: u32,
+
     /// Unconsumed field ID slot in the parent [`Fields`].
     unconsumed_field: &'r mut Option<u64>,
 }
@@ -144,6 +154,9 @@ impl<'r, R: ReadValue> Field<'r, R> {
     ) -> Result<Fields<'_, impl ReadValue<Types = R::Types>>, ProtobufError> {
         match self.value {
             FieldValue::Len(len) => {
+                if self.depth >= MAX_NESTING_DEPTH {
+                    return Err(self.error(ErrorKind::NestingTooDeep));
+                }
                 self.consume_field()?;
                 let reader = self
                     .reader
@@ -152,6 +165,7 @@ impl<'r, R: ReadValue> Field<'r, R> {
                 Ok(Fields {
                     reader,
                     context,
+                    depth: self.depth + 1,
                     unconsumed_field: None,
                 })
             }
@@ -396,6 +410,9 @@ pub struct Fields<'r, R: ReadValue> {
     /// Debug name of the message type.
     context: Option<&'static str>,
 
+    /// Nesting depth of this message. This is zero for a top-level message.
+    depth: u32,
+
     /// The number of the last variable length field which was not consumed
     /// before being dropped. This is used to report an error when attempting
     /// to read the next field.
@@ -411,6 +428,7 @@ impl<'r, R: ReadValue> Fields<'r, R> {
         Self {
             reader: LimitReader::unbounded(reader),
             context,
+            depth: 0,
             unconsumed_field: None,
         }
     }
@@ -470,6 +488,7 @@ impl<'r, R: ReadValue> Fields<'r, R> {
             consumed: !matches!(value, FieldValue::Len(_)),
             value,
             context: self.context,
+            depth: self.depth,
             unconsumed_field: &mut self.unconsumed_field,
         }))
     }
@@ -477,9 +496,9 @@ impl<'r, R: ReadValue> Fields<'r, R> {
 
 #[cfg(test)]
 mod tests {
-    use super::{FieldValue, Fields};
+    use super::{FieldValue, Fields, MAX_NESTING_DEPTH};
     use crate::protobuf::varint::encode_varint;
-    use crate::protobuf::{ErrorKind, ProtobufError, ValueReader};
+    use crate::protobuf::{ErrorKind, ProtobufError, ReadValue, ValueReader};
 
     fn read_fields(buf: &[u8]) -> Result<Vec<(u64, FieldValue)>, ProtobufError> {
         let mut reader = ValueReader::from_buf(buf);
@@ -677,6 +696,42 @@ mod tests {
         assert_eq!(final_field.number(), 2);
         std::mem::drop(final_field);
         assert!(fields.next().unwrap().is_none());
+    }
+
+    #[test]
+    fn test_nested_message_depth_limit() {
+        // Read the message nested at `depth` levels inside a top-level message.
+        fn read_nested<R: ReadValue>(mut fields: Fields<R>, depth: u32) -> Result<(), ProtobufError> {
+            while let Some(mut field) = fields.next()? {
+                if depth > 0 {
+                    read_nested(field.read_message(Some("SubMessage"))?, depth - 1)?;
+                } else {
+                    field.skip()?;
+                }
+            }
+            Ok(())
+        }
+
+        fn nested_message(depth: u32) -> Vec<u8> {
+            let mut buf = FieldValue::Varint(1).encode(2);
+            for _ in 0..depth {
+                let mut parent = FieldValue::Len(buf.len() as u64).encode(1);
+                parent.extend(buf);
+                buf = parent;
+            }
+            buf
+        }
+
+        let buf = nested_message(MAX_NESTING_DEPTH);
+        let mut reader = ValueReader::from_buf(buf);
+        let fields = Fields::new(&mut reader, Some("TestMessage"));
+        read_nested(fields, MAX_NESTING_DEPTH).unwrap();
+
+        let buf = nested_message(MAX_NESTING_DEPTH + 1);
+        let mut reader = ValueReader::from_buf(buf);
+        let fields = Fields::new(&mut reader, Some("TestMessage"));
+        let err = read_nested(fields, MAX_NESTING_DEPTH + 1).err().unwrap();
+        assert!(matches!(err.kind(), ErrorKind::NestingTooDeep));
     }
 
     #[test]
